@@ -486,7 +486,8 @@ func genProgramWith(t *rapid.T, o progOpts, extraNames []string) *Program {
 	}
 	root := sb.String()
 	if o.inherit && drawInt(t, 0, 3, "inh") == 0 {
-		g.files["/base.tpl"] = "BASE[{% block content %}base-content{% endblock %}|{% block side %}{{ name }}{% endblock %}]" + g.text()
+		// whitespace next to the block tags, so that TrimBlocks / LStripBlocks matter in the parent too
+		g.files["/base.tpl"] = "BASE[\n  {% block content %}\n\nbase-content{% endblock %}\n\n|\t{% block side %}\n {{ name }}{% endblock %}\n]" + g.text()
 		over := "{% block content %}" + root + "{% if flag %}{{ block.Super }}{% endif %}{% endblock %}"
 		// blocks generated inside root are nested in 'content': fine (fresh names)
 		root = `{% extends "/base.tpl" %}` + over
